@@ -31,7 +31,15 @@ KINDS = {
     "alacfd0": (0x180072, 1, "fd0", "caf", False, True),
     "gsmfd1": (0x010020, 1, "fd1", "wav", False, False),
     "w64p": (0x0B0002, 2, "path", "w64", False, False),
+    # the NAME class: files of several live handles that have the same name in different directories (NAMES) or no name at all (every
+    # descriptor route: psf->file.name is "") -- whatever the library derives from a name (SD2 resource fork, a spool file) is per handle
+    "alacn": (0x180070, 2, "path", "caf", False, True),
+    "alacn32": (0x180073, 1, "path", "caf", False, True),
+    "alacfd1": (0x180071, 2, "fd1", "caf", False, True),
+    "sd2n": (0x160002, 2, "path", "sd2", True, False),
+    "wavn": (0x010002, 1, "path", "wav", False, False),
 }
+NAMES = {"alacn": "take", "alacn32": "take", "sd2n": "take", "wavn": "take"}
 
 
 class Actor:
@@ -39,20 +47,25 @@ class Actor:
     def __init__(self, slot, kind, phase):
         self.slot, self.kind, self.phase = slot, kind, phase
         self.fmt, self.ch, self.route, self.ext, self.sd2, self.alac = KINDS[kind]
+        self.name = (" name=" + NAMES[kind]) if kind in NAMES else ""
+        self.big_first = False          # ALAC writers: the write that fills a packet (and reaches the spool file) in the first / second step
 
     def pre(self):
         """operations that run before the interleaved part (the file a reader needs)"""
         if self.phase == "w":
             return []
         a = "a%d" % self.slot
-        return ["fdw open %s w fmt=%08x ch=%d sr=8000 route=path ext=%s" % (a, self.fmt, self.ch, self.ext), "fdw w %s 300" % a, "fdw close %s" % a]
+        return ["fdw open %s w fmt=%08x ch=%d sr=8000 route=path ext=%s%s" % (a, self.fmt, self.ch, self.ext, self.name), "fdw w %s 300" % a, "fdw close %s" % a]
 
     def steps(self):
         a = "a%d" % self.slot
         mode = {"w": "w", "r": "r", "rw": "rw"}[self.phase]
-        op = "fdw open %s %s fmt=%08x ch=%d sr=8000 route=%s ext=%s" % (a, mode, self.fmt, self.ch, self.route, self.ext)
+        op = "fdw open %s %s fmt=%08x ch=%d sr=8000 route=%s ext=%s%s" % (a, mode, self.fmt, self.ch, self.route, self.ext, self.name)
         io1 = "fdw w %s 200" % a if self.phase == "w" else "fdw r %s 120" % a
         io2 = "fdw w %s 4200" % a if (self.phase == "w" and self.alac) else "fdw w %s 150" % a if self.phase in ("w", "rw") else "fdw r %s 500" % a
+        if self.phase == "w" and self.alac and self.big_first:
+            # both (all three) writers have a packet in their spool files before any of them closes
+            return [[op, "fdw w %s %d" % (a, 4200 + 300 * self.slot)], ["fdw w %s %d" % (a, 4100 - 500 * self.slot), "fdw close %s" % a]]
         return [[op, io1], [io2, "fdw close %s" % a]]
 
     def model_open(self, ok, pre=False):
@@ -168,8 +181,12 @@ def run(ctx, env):
     # every triple has an SD2 or an ALAC handle (the two kinds that own more than one descriptor); phases vary
     base = [("sd2w", "wavfd1", "aufd0"), ("sd2w", "alacp", "aifffd1"), ("wavp", "sd2w24", "alacfd0"), ("sd2w", "sd2w24", "gsmfd1"),
             ("alacp", "alacfd0", "w64p"), ("aufd0", "sd2w", "sd2w")]
-    for t in base:
+    # same name in different directories / no name: every pairing of the routes for the two kinds that own a second file
+    named = [("alacn", "alacn32", "alacn"), ("alacfd0", "alacfd1", "alacfd0"), ("alacn", "alacfd1", "alacp"), ("sd2n", "sd2n", "alacn"),
+             ("sd2n", "wavn", "sd2n")]
+    for t in base + named:
         triples.append((t, ("w", "w", "w")))
+    nbase_named = (len(base), len(base) + len(named))
     triples.append((("sd2w", "wavfd1", "aufd0"), ("r", "w", "r")))
     triples.append((("sd2w24", "wavp", "sd2w"), ("rw", "rw", "w")))
     triples.append((("wavfd1", "sd2w", "alacp"), ("r", "r", "w")))
@@ -179,6 +196,7 @@ def run(ctx, env):
     for ti, (ks, phases) in enumerate(triples):
         actors = [Actor(i, ks[i], phases[i] if not (KINDS[ks[i]][5] and phases[i] != "w") else "w") for i in range(3)]
         for a in actors:
+            a.big_first = nbase_named[0] <= ti < nbase_named[1] or ti % 2 == 1
             solos[(ti, a.slot)] = ("solo-%d-%d" % (ti, a.slot), solo_script(a), a)
         use = orders if (not quick or ti < 4) else orders[(ctx.seed + ti) % 3::3]
         for oi, order in enumerate(use):
